@@ -4894,6 +4894,79 @@ func (r *vpRun) nilThenValue(rng *rand.Rand) {
 	r.stats["nil_then_value"]++
 }
 
+// singletonBurst (C01, C09): a fresh (non-root) scope is asked for eight singletons of eight different types by eight
+// goroutines at the same moment - whatever the scope remembers about singletons on first use, every answer is THE
+// singleton of the requested type.
+type vb1 struct{ _ int }
+type vb2 struct{ _ int }
+type vb3 struct{ _ int }
+type vb4 struct{ _ int }
+type vb5 struct{ _ int }
+type vb6 struct{ _ int }
+type vb7 struct{ _ int }
+type vb8 struct{ _ int }
+
+func (r *vpRun) singletonBurst(rng *rand.Rand) {
+	w := r.newWorld(rng)
+	defer r.emit("p verdict", "ok")
+	c := NewCollection()
+	c.AddSingleton(func() *vb1 { return &vb1{} })
+	c.AddSingleton(func() *vb2 { return &vb2{} })
+	c.AddSingleton(func() *vb3 { return &vb3{} })
+	c.AddSingleton(func() *vb4 { return &vb4{} })
+	c.AddSingleton(func() *vb5 { return &vb5{} })
+	c.AddSingleton(func() *vb6 { return &vb6{} })
+	c.AddSingleton(func() *vb7 { return &vb7{} })
+	c.AddSingleton(func() *vb8 { return &vb8{} })
+	types := []reflect.Type{reflect.TypeOf((*vb1)(nil)), reflect.TypeOf((*vb2)(nil)), reflect.TypeOf((*vb3)(nil)), reflect.TypeOf((*vb4)(nil)),
+		reflect.TypeOf((*vb5)(nil)), reflect.TypeOf((*vb6)(nil)), reflect.TypeOf((*vb7)(nil)), reflect.TypeOf((*vb8)(nil))}
+	var p Provider
+	var err error
+	if guard(w, "Build", func() { p, err = c.Build() }) || err != nil {
+		w.fail("C08", "singleton-burst scenario: Build failed: %v", err)
+		return
+	}
+	defer p.Close()
+	want := make([]any, len(types))
+	for i, t := range types {
+		want[i], _ = p.Get(t)
+	}
+	for round := 0; round < 60; round++ {
+		sc, e := p.CreateScope(nil)
+		if e != nil {
+			return
+		}
+		got := make([]any, len(types))
+		start := make(chan struct{})
+		var wg sync.WaitGroup
+		for i := range types {
+			wg.Add(1)
+			go func(i int) {
+				defer wg.Done()
+				defer func() { recover() }()
+				<-start
+				got[i], _ = sc.Get(types[i])
+			}(i)
+		}
+		close(start)
+		wg.Wait()
+		for i := range types {
+			var again any
+			if guard(w, "Get", func() { again, _ = sc.Get(types[i]) }) {
+				w.fail("C01,C09,C15", "singleton-burst scenario: after eight goroutines had asked a fresh scope for eight singletons at the same moment, Get(%v) on that scope panics", types[i])
+				return
+			}
+			if got[i] != want[i] || again != want[i] {
+				w.fail("C01,C09,C04", "singleton-burst scenario: a fresh scope asked for eight singletons at the same moment answered %T (%p) for %v, then %T; the provider's singleton is %p", got[i], got[i], types[i], again, want[i])
+				sc.Close()
+				return
+			}
+		}
+		sc.Close()
+	}
+	r.stats["singleton_burst"]++
+}
+
 func (r *vpRun) watched(name string, f func()) (hung bool) {
 	done := make(chan struct{})
 	go func() {
@@ -5027,6 +5100,11 @@ func TestVerifCore(t *testing.T) {
 				break
 			}
 			continue
+		}
+		if it%50 == 6 {
+			if r.watched("singletonBurst", func() { r.singletonBurst(rngX) }) {
+				break
+			}
 		}
 		if it%50 == 4 {
 			if r.watched("nilThenValue", func() { r.nilThenValue(rngX) }) {
